@@ -21,7 +21,7 @@ SHORT = {
  "C14": "FAILED frame decoded in the same pass overwrites an earlier symbol", "C14b": "FileTransport read pointer hoisted above the overflow reset",
  "C15": "source mask `0x0f`", "C15b": "NAK of the response not followed by the single repetition", "C15c": "nested MM answer IDs resolved to the shorter one",
  "C15d": "CRC reset of the answer moved: repetition carries a stale CRC",
- "C16": "level check behind the cache answer of `read -h`", "C16b": "HTTP user without secret keeps the user's levels", "C16c": None,
+ "C16": "level check behind the cache answer of `read -h`", "C01e": "SYN branch guarded by `!sending` instead of the state", "C02e": "SYN with buffered data passes although a request is current", "C03e": "adapter ERROR frame no longer withdraws the START", "C04d": "retry counter reset after the request was handed to the queue", "C15e": "MM-vs-MS decision by own address instead of isMaster", "C07d": "24:00:ss accepted on write (time types)", "C08d": "unavailable conditional alternative ends the bucket scan", "C09d": "field index translation drops the name filter", "C12d": "stream flags no longer reset before a number", "C16d": "ACL lines append instead of replace", "C05c": "backslash not escaped in JSON strings", "C06c": "symmetric range check rejects the most negative raw value", "C10c": "single field claims its length in both parts", "C11c": "doubled ESC accepted by parseHexEscaped", "C13c": "prepared request counts as seen", "C14c": "RESETTED leaves m_arbitrationCheck set", "C17c": "front insertion resets m_pollOrder", "C18c": "topic match uses rfind", "C19c": "quote after separator inside quoted text reopens", "C16b": "HTTP user without secret keeps the user's levels", "C16c": None,
  "C17": "`setPollPriority` pushes back instead of pulling forward", "C17b": "`clear()` of any map resets the shared `g_lastPollOrder`",
  "C18": "blank runs inside quotes collapsed", "C18b": "leading-slash requirement of the HTTP target dropped",
  "C19": "chain part IDs dumped in decimal", "C19b": "`dumpString` skips the second of two adjacent quotes",
@@ -37,7 +37,11 @@ for d in sorted(glob.glob("/verif/seeded/*/")):
     first = "caught" if c.get("detected") and not m.get("detected_after_strengthening") else "missed"
     note = m.get("lead_note", "")
     strengthened = ""
-    if first == "missed":
+    if m.get("caught_by_other_property"):
+        first, strengthened = "outside", "outside this property as stated; caught by the %s check" % m["caught_by_other_property"]
+    elif m.get("not_detected"):
+        first, strengthened = "missed", "**not caught** (needs a forced thread schedule + poisoning of deleted requests; see below)"
+    elif first == "missed":
         k = re.search(r"caught after (.*)", note)
         strengthened = (k.group(1) if k else note)[:170]
     short = SHORT.get(sid) or (m.get("summary", "")[:90] + "…")
